@@ -923,6 +923,35 @@ def _r5(repo, L, m, ba):
                 okp, whyp = False, "a contig that was already placed is re-added: duplicated"
         else:
             conds_on_frag = [e for e in p.events if e.kind == "cond" and any(isinstance(x, ast.Name) and x.id == fv for x in ast.walk(e.node))]
+            # `if <not found> and <filter on the fragment's own data>:` taken as false: one way to get here is "not found, filter
+            # false" -- a contig nobody placed is then not re-added.  Counted only for a filter that can be false: a comparison of
+            # the fragment's length / start / end with an integer constant that is not implied by length >= 1, start >= 1.
+            for e in conds_on_frag:
+                t_ = e.node
+                if isinstance(t_, ast.BoolOp) and isinstance(t_.op, ast.And) and e.val is False and not adds:
+                    look = [v_ for v_ in t_.values if any(tt_.endswith(f".get({fv}.key_tuple)") or (isinstance(f_, ast.Compare) and norm(f_.left) == f"{fv}.key_tuple") for f_, _ in cond_facts(v_, True) for tt_ in [norm(f_).replace(" ", "")])]
+                    rest = [v_ for v_ in t_.values if v_ not in look]
+
+                    def _can_be_false(c_):
+                        if not (isinstance(c_, ast.Compare) and len(c_.ops) == 1):
+                            return False
+                        l_, r_ = c_.left, c_.comparators[0]
+                        k_l, k_r = try_fold(l_, default=None), try_fold(r_, default=None)
+                        op_ = type(c_.ops[0])
+                        if isinstance(k_l, int) and norm(r_) in (f"{fv}.length", f"{fv}.start", f"{fv}.end"):
+                            # k < x false needs x <= k possible with x >= 1;  k <= x false needs x < k possible
+                            return (op_ is ast.Lt and k_l >= 1) or (op_ is ast.LtE and k_l >= 2)
+                        if isinstance(k_r, int) and norm(l_) in (f"{fv}.length", f"{fv}.start", f"{fv}.end"):
+                            return (op_ is ast.Gt and k_r >= 1) or (op_ is ast.GtE and k_r >= 2)
+                        return False
+
+                    if look and rest and all(_can_be_false(c_) for c_ in rest):
+                        okp, whyp = False, f"a contig no lookup returned is not re-added when '{norm(rest[0])}' is false: it is lost"
+                        conds_on_frag = []
+                        unseen = "filtered"
+                        break
+            if unseen == "filtered":
+                continue
             if conds_on_frag:
                 raise AnalysisError(f"{addm.short}: whether a fragment is re-added is decided by '{norm(conds_on_frag[0].node)[:60]}', not by a lookup of its key in the found map: form not understood")
             okp, whyp = False, "re-add decision does not depend on the found map keyed by (name, start, end)"
